@@ -146,6 +146,66 @@ static void handle(int argc, char **argv) {
         if (cif) cif_destroy(cif);
         for (i = 0; i < n; i++) free(names[i]);
         free(names);
+    } else if (argc >= 4 && !strcmp(argv[1], "deser")) {
+        /* serialise a list value (un-armed), then deserialise the blob onto a fresh value object, as GET_VALUE_PROPS does */
+        cif_value_tp *v, *dest = NULL;
+        buffer_tp *buf = NULL;
+        pos = 2;
+        v = mk(argv, argc, &pos);
+        if (!v || pos != argc - 1 || cif_value_kind(v) != CIF_LIST_KIND) { OUT("bad-op"); cif_value_free(v); return; }
+        if (cif_value_serialize(v, &buf) != CIF_OK || !buf || cif_value_create(CIF_UNK_KIND, &dest) != CIF_OK) { OUT("setup-failed"); cif_value_free(v); return; }
+        verif_arm(0, atol(argv[pos]));
+        ARM(); rc = cif_value_deserialize(buf->for_writing.start, buf->for_writing.limit, dest); DISARM();
+        summary(rc);
+        {
+            char *a = NULL, *b = NULL; size_t sa = 0, sb = 0;
+            FILE *fa = open_memstream(&a, &sa), *fb = open_memstream(&b, &sb);
+            fdump_value(fa, dest); fdump_value(fb, v);       /* dest must be a valid value in any case */
+            fclose(fa); fclose(fb);
+            if (rc == CIF_OK && (!a || !b || strcmp(a, b))) OUT(" !NEWVALUE");
+            free(a); free(b);
+        }
+        free(buf->for_writing.start); free(buf);
+        cif_value_free(dest); cif_value_free(v);
+    } else if (argc >= 4 && !strcmp(argv[1], "copychar")) {
+        cif_value_tp *v;
+        UChar txt[] = { 'n', 'e', 'w', 0 }, *got = NULL;
+        pos = 2;
+        v = mk(argv, argc, &pos);
+        if (!v || pos != argc - 1) { OUT("bad-op"); cif_value_free(v); return; }
+        /* the target is a CLONE of the built value (as in `set`, and as the model builds it): a cloned empty list owns a
+           zero-length element array, a freshly created one does not */
+        { cif_value_tp *c = NULL; if (cif_value_clone(v, &c) != CIF_OK) { OUT("setup-failed"); cif_value_free(v); return; } cif_value_free(v); v = c; }
+        verif_arm(0, atol(argv[pos]));
+        ARM(); rc = cif_value_copy_char(v, txt); DISARM();
+        summary(rc);
+        if (rc == CIF_OK) { if (cif_value_kind(v) != CIF_CHAR_KIND || cif_value_get_text(v, &got) != CIF_OK || !got || u_strcmp(got, txt)) OUT(" !TEXT"); free(got); }
+        else { FILE *f = fopen("/dev/null", "w"); if (f) { fdump_value(f, v); fclose(f); } }    /* still a valid value */
+        cif_value_free(v);
+    } else if (argc == 4 && (!strcmp(argv[1], "packet") || !strcmp(argv[1], "packetfixed"))) {
+        /* cif_packet_create with one name per character of argv[2] ('-' = none): 'n' = a name that is already in normalised
+           form (_a<i>), 'r' = a respelled one (_A<i>: the original spelling is kept in a separate copy).  ASCII names, so
+           cif_normalize makes exactly three requests per name; ICU's own allocations are not wrapped in this executor. */
+        const char *fl = strcmp(argv[2], "-") ? argv[2] : "";
+        int n = (int) strlen(fl), i;
+        cif_packet_tp *pkt = NULL;
+        UChar **names;
+        if (n > 40 || strspn(fl, "nr") != (size_t) n) { OUT("bad-op"); return; }
+        names = (UChar **) calloc(n + 1, sizeof(UChar *));
+        for (i = 0; i < n; i++) { char b[16]; int j; snprintf(b, sizeof b, fl[i] == 'r' ? "_A%d" : "_a%d", i); names[i] = (UChar *) calloc(16, sizeof(UChar)); for (j = 0; b[j]; j++) names[i][j] = (UChar) b[j]; }
+        verif_arm(0, atol(argv[3]));
+        ARM(); rc = cif_packet_create(&pkt, names); DISARM();
+        summary(rc);
+        if (rc == CIF_OK && pkt) {
+            /* the packet must be a usable packet with exactly the requested items under their original spellings */
+            const UChar **got = NULL;
+            if (cif_packet_get_names(pkt, &got) != CIF_OK || !got) OUT(" !PNAMES");
+            else { for (i = 0; got[i]; i++) if (i >= n || u_strcmp(got[i], names[i])) OUT(" !PNAME%d", i); if (i != n) OUT(" !PCOUNT%d", i); free(got); }
+            for (i = 0; i < n; i++) { cif_value_tp *v = NULL; if (cif_packet_get_item(pkt, names[i], &v) != CIF_OK || !v) OUT(" !PITEM%d", i); }
+            cif_packet_free(pkt);
+        } else if (rc == CIF_OK) OUT(" !NOPACKET");
+        for (i = 0; i < n; i++) free(names[i]);
+        free(names);
     } else if (argc >= 5 && !strcmp(argv[1], "set")) {
         /* the target is element 1 of [ ? <tshape> ? ]; replacing it releases pre-existing blocks only (counted as pfrees) */
         cif_value_tp *lst = NULL, *e, *filler = NULL, *old, *probe = NULL;
